@@ -48,6 +48,8 @@ def ev(t: Sym, env: Dict[Any, Any]) -> Any:
         return ev(t[2], env) if ev(t[1], env) else ev(t[3], env)
     if k == "tuple":
         return tuple(ev(x, env) for x in t[1])
+    if k == "dictd":
+        return {ev(a, env): ev(b, env) for a, b in t[1]}
     if k == "op":
         op = t[1]
         if op == "and":
